@@ -174,7 +174,7 @@ func Load(cfg Config) (*Prog, error) {
 	curProg = p
 	resetInlineMemo()
 	aliasOf = map[*ssa.Function]string{}
-	computeInlinable(p)
+	inlinableSet = map[*ssa.Function]bool{} // anchors are resolved on the plain decomposition
 	computeNonNilGlobals(p)
 	// resolve anchors
 	aliasOf = map[*ssa.Function]string{}
